@@ -1,4 +1,5 @@
 import AurelVerif.Model.Attr
+import AurelVerif.Model.TensorDefs
 /-
 Model/Tensor.lean — literal tensors for generated formulas (Mathlib-free).
 `vec3 a b c` is the function `Fin 3 → α` with those three values; nesting gives
@@ -6,19 +7,6 @@ higher ranks.  The `rfl` lemmas at literal indices are the only thing proofs
 need to unfold a generated table.
 -/
 namespace AurelVerif.Tensor
-
-def vec3 {α : Type} (a b c : α) : Fin 3 → α := fun i =>
-  match i with
-  | ⟨0, _⟩ => a
-  | ⟨1, _⟩ => b
-  | ⟨_ + 2, _⟩ => c
-
-def vec4 {α : Type} (a b c d : α) : Fin 4 → α := fun i =>
-  match i with
-  | ⟨0, _⟩ => a
-  | ⟨1, _⟩ => b
-  | ⟨2, _⟩ => c
-  | ⟨_ + 3, _⟩ => d
 
 @[simp, core_unfold] theorem vec3_0 {α : Type} (a b c : α) : vec3 a b c 0 = a := rfl
 @[simp, core_unfold] theorem vec3_1 {α : Type} (a b c : α) : vec3 a b c 1 = b := rfl
